@@ -133,3 +133,6 @@ Fixpoint lookup_prog (name : string) (l : list (string * list (nat * nat) * list
   end.
 Definition all_immutable (names : list string) (l : list (string * list (nat * nat) * list atom)) : bool :=
   forallb (fun n => match lookup_prog n l with Some (c, a) => imm_ok (comp_of c) a | None => false end) names.
+Definition all_hold (cls : (var -> nat) -> list atom -> bool) (names : list string)
+                    (l : list (string * list (nat * nat) * list atom)) : bool :=
+  forallb (fun n => match lookup_prog n l with Some (c, a) => cls (comp_of c) a | None => false end) names.
